@@ -2,6 +2,7 @@ package main
 
 func controlsC19() []Control {
 	return []Control{
+		{Name: "suspension recorded in a copy of the runner (value receiver)", Expect: "R6", Mutate: replaceIn("(*playerRunner).Suspend", "func (pr *playerRunner) Suspend(", "func (pr playerRunner) Suspend(", 0)},
 		{Name: "engine adapter rounds the pay amount up", Expect: "R3", Mutate: replaceIn("(*tableEngineAdapter).Pay", "return tea.engine.PlayerPay(playerID, chips)", "return tea.engine.PlayerPay(playerID, chips+chips%2)", 0)},
 		{Name: "thinking timer re-created when the runner is attached", Expect: "R5", Mutate: replaceIn("(*playerRunner).SetActor", "\tpr.actor = a\n", "\tpr.actor = a\n\tpr.timebank = timebank.NewTimeBank()\n", 0)},
 		{Name: "every view cancels the pending auto-play", Expect: "R5", Mutate: replaceIn("(*playerRunner).UpdateTableState", "\tpr.tableInfo = table\n", "\tpr.tableInfo = table\n\tpr.timebank.Cancel()\n", 0)},
